@@ -120,9 +120,16 @@ def run():
                             cfg="MCParseSession.cfg" if thorough else "MCParseSessionQuick.cfg", timeout=2400)])
     stats = dict(texts=0, runs=0, pieces=0, references=0, discarded_items=0, panic_results=0,
                  texts_with_cuts_inside_more=0)
-    for part in ("gen", "files", "rand"):
+    # (name, zv arguments); the thorough tier works in batches to bound the size of one trace
+    batches = [("gen", ["-part", "gen"]), ("files", ["-part", "files"]), ("rand", ["-part", "rand"])]
+    if thorough:
+        batches += [("gen4-%d" % k, ["-part", "gen", "-gen", "base,4,full,1,%d,4" % k]) for k in range(4)]
+        batches += [("mid5", ["-part", "gen", "-gen", "mid,5,light,6,0,1"]),
+                    ("small5", ["-part", "gen", "-gen", "small,5,light,1,0,1"]),
+                    ("small6", ["-part", "gen", "-gen", "small,6,light,6,0,1"])]
+    for part, args in batches:
         trace = os.path.join(vlib.scratch(), "parse-%s.ndjson" % part)
-        vlib.run_zv(zv, FAMILY, ["-part", part], trace)
+        vlib.run_zv(zv, FAMILY, args, trace)
         _validate(out, part, trace, zv, stats)
         for k in range(1, 4 * vlib.NCPU + 1):
             try:
@@ -142,11 +149,12 @@ def run():
         "discarded_panic_items": stats["discarded_items"], "panic_results_recorded": stats["panic_results"],
         "exhaustive": True,
         "rule": "gen: every text over the 20-class alphabet up to length L1 x {whole, every single cut, every pair of cuts} "
-                "x 12 histories (+ Reset;NewInput loading for 3 of them); every structured text over a 14-class / 9-class "
-                "alphabet up to L2 / L3 x all cuts on a fresh parser + every history whole and with one cut set; "
+                "x 12 histories (+ Reset;NewInput loading for 3 of them); every structured text of a 9-class alphabet of "
+                "length L3 (thorough also: 14-class alphabet, length 5, 1 in 6; 9-class, length 6, 1 in 6) x all cuts on a "
+                "fresh parser + every history whole and with one cut set; "
                 "files: every tests/*.zy x every history whole + seeded single cuts, pairs and multi-cuts x random history; "
                 "rand: seeded random class texts and corpus windows x random multi-cuts x random history "
-                "(quick: L1,L2,L3 = 3,-,4; thorough: 4,5 (1 in 6),6 (1 in 6)). A Go panic escaping the parser is recorded "
+                "(quick: L1 = 3, L3 = 4; thorough: L1 = 4, L3 = 4..5). A Go panic escaping the parser is recorded "
                 "and the item is not judged (C01).",
     }
     return flow.finish(out, "model_checking", cov, [
